@@ -64,10 +64,12 @@ impl GraphBlock {
         }
     }
 
-    // a rule directly under a text line turns it into a setext heading
+    // a rule directly under a text line turns it into a setext heading,
+    // a table directly under a text line is swallowed by that paragraph
     fn needs_blank_line_before(&self) -> bool {
         match self {
             GraphBlock::HorizontalRule => true,
+            GraphBlock::Table(_, _, _) => true,
             _ => false,
         }
     }
